@@ -1294,7 +1294,7 @@ fn try_unwrap_lit_prop_name(prop_name: &PropName) -> Option<Cow<PropName>> {
             Some(Cow::Borrowed(prop_name))
         }
         PropName::Computed(ComputedPropName { expr, .. }) => match &**expr {
-            Expr::Ident(ident) => Some(Cow::Owned(PropName::Ident(ident.clone().into()))),
+            // `[ident]` is the *value* of `ident`, which isn't known statically
             Expr::Lit(Lit::Str(str)) => Some(Cow::Owned(PropName::Str(str.clone()))),
             Expr::Lit(Lit::Num(num)) => Some(Cow::Owned(PropName::Num(num.clone()))),
             Expr::Lit(Lit::BigInt(bigint)) => Some(Cow::Owned(PropName::BigInt(bigint.clone()))),
